@@ -11,7 +11,7 @@ from hypothesis import strategies as st
 
 from pbt import strategies as S
 from pbt.common import Stats, Sub, Violation
-from pbt.sut import call, mk_converter
+from pbt.sut import BUILD_MODES, call, mk_converter, mk_converter_via
 
 PROPERTY_ID = "C16"
 RULE = (
@@ -80,6 +80,7 @@ def table_cases(draw, tier="quick", kind="pd"):
         "strict": draw(st.sampled_from([False, False, True])),
         "passthrough": draw(st.booleans()),
         "ambiguous": draw(st.booleans()),
+        "build": draw(st.sampled_from(BUILD_MODES)),
     }
     if kind == "pd":
         case["func"] = draw(st.sampled_from(PD_FUNCS))
@@ -124,7 +125,7 @@ def check_pd(case, stats: Stats) -> None:
     import pandas as pd
 
     stats.ev()
-    conv = mk_converter(case["spec"])
+    conv = mk_converter_via(case["spec"], case.get("build", "at-once"))
     ncols = case["ncols"]
     labels = list(range(ncols)) if case["int_labels"] else [f"c{i}" for i in range(ncols)]
     df = pd.DataFrame([list(r) for r in case["rows"]], columns=labels)
@@ -192,7 +193,7 @@ def _write_table(path: Path, case, rows_with_fault):
 
 def check_file(case, stats: Stats) -> None:
     stats.ev()
-    conv = mk_converter(case["spec"])
+    conv = mk_converter_via(case["spec"], case.get("build", "at-once"))
     sep = case["sep"] or "\t"
     rows = [list(r) for r in case["rows"]]
     col = case["column"]
